@@ -56,9 +56,9 @@ def preState (sk : Skeleton) (s : State) (e : E) (t : Nat) : State :=
 theorem pre_run (sk : Skeleton) (ha : Async sk) (s : State) (e : E) (t : Nat)
     (hpc : (s.calls e t).pc = .registered) (hb : s.reqLoopBusy (peer e) = none) :
     run sk s (preActs s e t) = some (preState sk s e t) := by
-  obtain ⟨a1, a2, a3, a4, a5⟩ := ha
+  obtain ⟨a1, a2, a3, a4, a5, a6⟩ := ha
   simp only [preActs, run, runFrom, step, hpc, updE_same, hb, if_true, getElem?_length_append,
-    upd2_same, a1, a2, a4, a5, Bool.true_eq_false, or_self, or_false, if_false, eraseIdx_length_append, updE_updE, upd2_upd2, release,
+    upd2_same, a1, a2, a4, a5, a6, windowFree, Bool.true_or, Bool.true_eq_false, or_self, or_false, if_false, eraseIdx_length_append, updE_updE, upd2_upd2, release,
     updE_eq_self _ _ _ rfl, updE_eq_self _ _ _ hb, ite_self, preState]
 
 /-- the handler thread calls the peer (a nested call) -/
@@ -105,7 +105,7 @@ theorem post_run (sk : Skeleton) (hf : Facts sk) (ha : Async sk) (s : State) (e 
     (hres : (s.calls e t).result = none) :
     run sk s (postActs s e t h v) = some (postState s e t h v) := by
   obtain ⟨f1, f0, f2, f3, f4, f5, f6, f7, f8⟩ := hf
-  obtain ⟨a1, a2, a3, a4, a5⟩ := ha
+  obtain ⟨a1, a2, a3, a4, a5, a6⟩ := ha
   simp only [postActs, run, runFrom, step, peer_peer, hh, upd2_same, f6, if_true, release, hb1, hb2, a4, a5, and_self,
     updE_eq_self _ _ _ hb1, updE_eq_self _ _ _ hb2, updE_same, getElem?_length_append, eraseIdx_length_append,
     updE_updE, upd2_upd2, updE_eq_self _ _ _ rfl, a3, mkRes, f5, hreq, pubKey, pubVal, f7, f8, hp, hid, hpc,
